@@ -8,8 +8,19 @@ Seqs(n) == UNION {[1..k -> Alphabet] : k \in 1..n}
 UrlClasses == {"abs-http-foreign", "abs-https-foreign", "abs-ws-foreign", "abs-wss-foreign", "scheme-relative", "path-only", "path-query",
                "opaque", "opaque-mailto", "empty", "userinfo", "ipv6", "odd-port", "empty-port", "fragment", "parse-error", "raw-bytes",
                "backend-host", "dot-segments", "encoded-path"}
+\* a reserved character of URL syntax inside a component where it does not delimit anything (an "@" in the query,
+\* a ":" in the path, a "?" in the fragment ...), for absolute, scheme-relative and relative references with and
+\* without a path: whatever the character seems to say, the connection goes to the configured backend
+RChars == {"@", ":", "/", "?", "#", "[", "%40", "%2F"}
+RComps == {"path", "query", "fragment"}
+RPaths == {"empty", "nonempty"}
+RForms == {"absolute", "scheme-relative", "relative"}
+Reserved == {"rsv|" \o c \o "|" \o k \o "|" \o p \o "|" \o f : c \in RChars, k \in RComps, p \in RPaths, f \in RForms}
+\* classes of characters a text message may carry: every one of them is valid UTF-8 and has to arrive as text
+TextClasses == {"ascii", "quote", "backslash", "lt", "gt", "amp", "latin1", "astral", "newline", "cr", "tab", "space", "nbsp",
+                "replacement-char", "bom", "nul", "del", "line-separator", "max-code-point", "combining", "rtl"}
 VARIABLE x
 GInit == x = 0
 GNext == x' = x
-ASSUME JsonSerialize(IOEnv.VERIF_OUT, [seqs |-> SetToSeq(Seqs(3)), urls |-> SetToSeq(UrlClasses), alphabet |-> SetToSeq(Alphabet)])
+ASSUME JsonSerialize(IOEnv.VERIF_OUT, [seqs |-> SetToSeq(Seqs(3)), urls |-> SetToSeq(UrlClasses), reserved |-> SetToSeq(Reserved), textclasses |-> SetToSeq(TextClasses), alphabet |-> SetToSeq(Alphabet)])
 =============================================================================
